@@ -546,7 +546,28 @@ func Replay(path string) int {
 			defer hx.CleanWorkDir()
 			return ReplayMC(m)
 		}
-		fmt.Fprintln(os.Stderr, "unknown replay artefact")
+		// artefacts of the dedicated sweeps: the job that failed is re-executed in this process
+		if eng, _ := m["engine"].(string); eng != "" && JobFuncs[eng] != nil && (m["job"] != nil) {
+			defer hx.CleanWorkDir()
+			jb, _ := json.Marshal(m["job"])
+			out := JobFuncs[eng](jb)
+			var r struct {
+				Fail string `json:"fail"`
+				Err  string `json:"err"`
+			}
+			_ = json.Unmarshal(out, &r)
+			if r.Fail != "" {
+				fmt.Printf("reproduced: %s\n", r.Fail)
+				return 1
+			}
+			if r.Err != "" {
+				fmt.Println("harness error:", r.Err)
+				return 2
+			}
+			fmt.Println("job passes (for a job covering several cases: none of them fails)")
+			return 0
+		}
+		fmt.Fprintf(os.Stderr, "replay artefact of engine %v: re-run the check itself (the artefact records the failing case in full)\n", m["engine"])
 		return 2
 	}
 	if os.Getenv("VERIF_EXPAND") != "" {
